@@ -485,10 +485,16 @@ enum ArgumentParser {
 
 impl ArgumentParser {
     fn parse_literal_number(number: Literal) -> Result<usize> {
+        // Bit positions and strides beyond the widest bitfield can never be valid. Refusing absurdly large numbers
+        // right here keeps the arithmetic done on them later (upper + 1, lower + 1, sums of range lengths) from
+        // overflowing - which would otherwise panic or wrap around depending on how this crate was built
+        const LARGEST_NUMBER: usize = u16::MAX as usize;
         number
             .to_string()
             .parse()
-            .map_err(|_| Error::new_spanned(&number, "bitfield!: Not a valid number in bitrange."))
+            .ok()
+            .filter(|value| *value <= LARGEST_NUMBER)
+            .ok_or_else(|| Error::new_spanned(&number, "bitfield!: Not a valid number in bitrange."))
     }
 
     pub fn take_literal(&self, lit: Literal) -> Result<ArgumentParser> {
